@@ -57,7 +57,7 @@ def rule_eligible_only(ctx):
         t = b["t"]
         if t["k"] == "call" and t["dest"]["l"] == 0 and not t["dest"].get("pr"):
             rets.append((bi, T.call_term(t)))
-    ctx.floor(R, "return sites of view_leader", len(rets), 2)
+    ctx.floor(R, "return sites of view_leader", len(rets), 1)
     LFv = Q.LocalFlow(f)
 
     def via_leaders(t):
@@ -138,6 +138,27 @@ def rule_eligible_only(ctx):
                     ok = tab.get(("<",)) == {"ret"} and not tab.get(("=",)) and not tab.get((">",))
                     ctx.ob(R, "weighted walk stops at the first cumulative weight above the draw", ok, "a leader is returned exactly when draw < cumulative weight (strict): every ticket 0..leader_weight-1 belongs to exactly one leader, in proportion to its weight" if ok else
                            "the weighted walk returns a leader for (draw vs cumulative weight) in %s instead of exactly '<': leaders get one ticket too many / too few" % sorted(k[0] for k, v in tab.items() if v), f.loc())
+            if not decided:
+                # the loop hands its result to code after it (break value / helper return place): decide on the loop's early exits
+                for h in heads:
+                    body = set(b for b in range(len(f.blocks)) if cfgf.dominates(h, b) and h in cfgf.reach_from([b]))
+                    body.add(h)
+                    exits = set()
+                    for x in body:
+                        si = T.switch_info(x)
+                        if si is not None and si[0][0] == "discr" and si[0][1][0] == "call" and si[0][1][1] == "std::iter::Iterator::next":
+                            continue      # the iterator is exhausted: the normal end of the loop
+                        for _, y in cfgf.succ[x]:
+                            if y not in body:
+                                exits.add(y)
+                    if not exits:
+                        continue
+                    names, tab = W.table({"exit": sorted(exits)}, start=h)
+                    if len(set(map(frozenset, tab.values()))) > 1:
+                        decided = True
+                        ok = tab.get(("<",)) == {"exit"} and not tab.get(("=",)) and not tab.get((">",))
+                        ctx.ob(R, "weighted walk stops at the first cumulative weight above the draw", ok, "the walk is left early exactly when draw < cumulative weight (strict)" if ok else
+                               "the weighted walk stops for (draw vs cumulative weight) in %s instead of exactly '<': leaders get one ticket too many / too few" % sorted(k[0] for k, v in tab.items() if v), f.loc())
         else:
             # a predicate closure (find / position / take_while ...): its truth under the three orderings
             res = {c: common.ret_truths(ctx, W, g, {"cmp(draw,cumulative)": c}) for c in "<=>"}
@@ -149,7 +170,7 @@ def rule_eligible_only(ctx):
     if not decided:
         ctx.note("C11.2 weighted walk comparison: shape not recognised - not decided")
     # the cumulative walk iterates self.leaders and accumulates weights of vec[l]
-    walk_ok = any(c["q"] == "[T]::iter" and field_path(T.args_of(c)[0])[1][-1:] == ["leaders"] for c in T.calls())
+    walk_ok = any(c["q"] in ("[T]::iter", "std::iter::IntoIterator::into_iter") and T.args_of(c) and field_path(T.args_of(c)[0])[1][-1:] == ["leaders"] for c in T.calls())
     ctx.ob(R, "cumulative walk over leaders", walk_ok, "the weighted walk iterates self.leaders" if walk_ok else "the weighted walk does not iterate self.leaders", f.loc())
     # construction of `leaders` and `leader_weight`
     n = ctx.fn(SCHED + "::new")
@@ -301,7 +322,29 @@ def rule_determinism(ctx):
     subs = list(subterms(t)) if t else []
     okh = any(x[0] == "call" and x[1].endswith("Keccak256::new") and any(y[0] == "call" and y[1] == "u64::to_be_bytes" and y[2][0][0] == "param" for y in subterms(x)) for x in subs)
     okm = any(x[0] == "call" and x[1] == "std::ops::Rem::rem" and any(y[0] == "param" and y[1] == 2 for y in subterms(x[2][1])) for x in subs)
-    ctx.ob(R, "draw term", okh and okm, "eligibility = Keccak256(input.to_be_bytes()) mod BigUint(total_weight argument)" if okh and okm else "eligibility term not recognised: %s" % (show(t)[:200] if t else None), e.loc())
+    if not (okh and okm):
+        # several return sites (e.g. a match on the digit slice): decide by flow - the returned value derives from
+        # `<hash of param 1's big-endian bytes> % <value built from param 2>`
+        LF = Q.LocalFlow(e)
+
+        def from_param(l, k):
+            return k in LF.closure(l)
+
+        def is_keccak(tt):
+            if "decl" not in tt["f"] or not e.callee(tt)[0].qname.endswith("Keccak256::new") or not tt["args"]:
+                return False
+            a0 = Q.LocalFlow._local_op(tt["args"][0])
+            return a0 is not None and LF.derives_from_call_where(a0, lambda u: "decl" in u["f"] and e.callee(u)[0].qname == "u64::to_be_bytes" and u["args"] and Q.LocalFlow._local_op(u["args"][0]) is not None and from_param(Q.LocalFlow._local_op(u["args"][0]), 1))
+
+        def is_rem(tt):
+            if "decl" not in tt["f"] or e.callee(tt)[0].qname != "std::ops::Rem::rem" or len(tt["args"]) != 2:
+                return False
+            a0, a1 = (Q.LocalFlow._local_op(x) for x in tt["args"])
+            return a0 is not None and a1 is not None and LF.derives_from_call_where(a0, is_keccak) and from_param(a1, 2) and not from_param(a1, 1)
+        okh = okm = all(LF.derives_from_call_where(l, is_rem) for l in Q.ret_locals(e) if l == 0)
+        if okh:
+            t = ("flow", "ret <- rem(keccak(to_be_bytes(param 1)), f(param 2))")
+    ctx.ob(R, "draw term", okh and okm, "eligibility = Keccak256(input.to_be_bytes()) mod BigUint(total_weight argument)" if okh and okm else "eligibility term not recognised: %s" % (show(t)[:200] if t and t[0] != "flow" else None), e.loc())
     # positive control
     pc = any(it.qname.startswith("rand::") for g in ctx.F.fns if not g.in_testonly() for _, d, r, _ in ctx.cg.ext_calls.get(g, []) for it in (d,) if it is not None)
     ctx.ob(R, "positive control", pc, "the prefix list matches RNG calls elsewhere in the workspace")
